@@ -27,6 +27,10 @@ from harness.common.tlc import MachineryError
 
 SPEC = os.path.join(tlc.SPECS, "lifecycle")
 LR = {1: 5e-3, 2: 1e-3, 3: 2e-2}
+# every fifth behaviour spells the largest rate as the Python int 1 (users write lr=1): the learning-rate history
+# then starts with an int and continues with floats
+LR_INT = {1: 5e-3, 2: 1e-3, 3: 1}
+_lr_table = [LR]
 KEYS = ("object", "probe")
 
 
@@ -36,7 +40,7 @@ def kwargs_of(c):
         kw["reset"] = True
     optp = c["optp"] if isinstance(c["optp"], dict) else {}
     if optp:
-        kw["optimizer_params"] = {k: ({"type": v["type"], "lr": LR[v["lr"]]} if v["type"] != "none"
+        kw["optimizer_params"] = {k: ({"type": v["type"], "lr": _lr_table[0][v["lr"]]} if v["type"] != "none"
                                       else {"type": "none"}) for k, v in optp.items()}
     if not c["skeep"]:
         sp = c["schedp"] if isinstance(c["schedp"], dict) else {}
@@ -52,7 +56,7 @@ def lr_value(tok):
         return 0.0
     if tok.get("dbl"):
         return None     # second scheduler on the same optimizer: lr rescaled at construction
-    base = LR[tok["lr"]]
+    base = _lr_table[0][tok["lr"]]
     if tok["sch"] == "none":
         return base
     if tok["sch"] == "exp":
@@ -155,6 +159,7 @@ def replay_behaviour(arg):
     reset_after_fork()
     warnings.filterwarnings("ignore")
     problems = []
+    _lr_table[0] = LR_INT if idx % 5 == 4 else LR
     variants = [("complex", 1, 1), ("pure_phase", 1, 2), ("potential", 2, 1), ("complex", 2, 2)]
     obj_type, nslices, nmodes = variants[idx % len(variants)]
     sim = tp.simulate(gpts=(3, 3), roi=(8, 8), num_slices=nslices, num_probe_modes=nmodes,
